@@ -178,6 +178,26 @@ func runC28(c *core.Ctx) {
 			c.Check(len(e.counter) > 0, "C28/co-update", n+"/size-change-adjusts-counter", fnOf[n].Pos(), "a change of an entry's size adjusts the counter in the same function", "an entry's size is changed without adjusting the byte counter")
 		}
 	}
+	// recency: writing or reading an existing key makes it the most recent one on every path
+	for _, n := range []string{"update", "Get"} {
+		if fn := optM(c, pkg, "capacityLRU", n); fn != nil {
+			tgt := core.AnyReturn
+			if n == "Get" {
+				tgt = func(in ssa.Instruction, _ *ssa.BasicBlock) bool {
+					r, ok := in.(*ssa.Return)
+					if !ok {
+						return false
+					}
+					b, isB := core.ConstBool(core.RetOperand(r, 1))
+					return isB && b
+				}
+			}
+			mustPass(c, fn, "C28/recency-refreshed", "capacityLRU."+n, nil, func(in ssa.Instruction) bool {
+				cc := core.CallOf(in)
+				return cc != nil && core.CallDesc(cc).Is("container/list", "List", "MoveToFront")
+			}, tgt, nil, "the touched entry is moved to the front of the eviction list")
+		}
+	}
 	c.Floor("C28/who-may-write", 7)
 	c.Floor("C28/co-update", 11)
 }
